@@ -23,7 +23,7 @@ def run(ctx) -> None:
     # the line/column law on the character-level scanner model: every token is stamped with the line and
     # column of its first character, for every input of <= 4/5 characters over two alphabets
     from harness import scanmc
-    scanmc.design(ctx, 4 if ctx.quick else 5, families=("operands", "misc"))
+    scanmc.design(ctx, 4 if ctx.quick else 6, families=("operands", "misc"))
     scanmc.refute_old_size_error(ctx)
     vecs = [v for v in g.printed if isinstance(v, dict) and "c" in v]
     if len(vecs) < 500:
